@@ -88,7 +88,7 @@ func newFnEnc(eng *Engine, fn *ssa.Function, name string, ctr *FuncContract) *fn
 		closures: map[ssa.Value]*ssa.MakeClosure{},
 		reach:   map[*ssa.BasicBlock]Term{}, outSt: map[*ssa.BasicBlock]*state{}, edge: map[[2]int]Term{},
 		oblNames: map[string]int{}, assumptions: map[string]bool{}, strLits: map[string]Term{},
-		ghostVars: map[string]Term{}, paramVal: map[string]SVal{}, implFns: map[string]*types.Interface{}, backGoals: map[int][]*backEdgeGoals{},
+		ghostVars: map[string]Term{}, paramVal: map[string]SVal{}, implFns: map[string]*types.Interface{}, backGoals: map[int][]*backEdgeGoals{}, embIDs: map[string]int{},
 	}
 	if e.pkg == "" && fn.Pkg != nil {
 		e.pkg = fn.Pkg.Pkg.Path()
@@ -151,6 +151,7 @@ func (e *fnEnc) run() (err error) {
 		e.paramVal[p.Name()] = SVal{t: v, typ: p.Type(), fvPtr: true}
 	}
 
+	e.assumeGlobalInvs(st)
 	// requires
 	env := e.entryEnv(st)
 	for _, cl := range e.ctr.Get("requires") {
@@ -172,26 +173,59 @@ func (e *fnEnc) run() (err error) {
 			for _, be := range bes {
 				gs = append(gs, imp(be.cond, be.inv[i]))
 			}
-			e.obligation("inv", fmt.Sprintf("loop %d:preserve:%s", li.ord, clauseLabel(cl, i)), tTrue, and(gs...), cl.Text, cl.Line, false)
+			e.obligationNoAssume("inv", fmt.Sprintf("loop %d:preserve:%s", li.ord, clauseLabel(cl, i)), tTrue, and(gs...), cl.Text, cl.Line)
 		}
 		for i, cl := range e.loopClauses(li.ord, "loop-decreases") {
 			var gs []Term
 			for _, be := range bes {
 				gs = append(gs, imp(be.cond, be.dec[i]))
 			}
-			e.obligation("dec", fmt.Sprintf("loop %d:%s", li.ord, clauseLabel(cl, i)), tTrue, and(gs...), cl.Text, cl.Line, false)
+			e.obligationNoAssume("dec", fmt.Sprintf("loop %d:%s", li.ord, clauseLabel(cl, i)), tTrue, and(gs...), cl.Text, cl.Line)
 		}
 	}
-	// postconditions: one obligation per ensures clause over all return points
-	for i, cl := range e.ctr.Get("ensures") {
-		var gs []Term
-		for r, rp := range e.retSt {
-			gs = append(gs, imp(rp.reach, e.retGoals[r][i]))
+	// merged exit point: results and heap joined over all return points
+	if len(e.retSt) > 0 {
+		var rs []Term
+		for _, rp := range e.retSt {
+			rs = append(rs, rp.reach)
 		}
-		if len(gs) == 0 {
-			continue
+		exitReach := e.declare("reach.exit", SBool)
+		e.assert(eq(exitReach, or(rs...)))
+		var st *state
+		if len(e.retSt) == 1 {
+			st = e.retSt[0].st
+		} else {
+			st = e.mergeStatesNamed("exit", func(yield func(*state, Term)) {
+				for _, rp := range e.retSt {
+					yield(rp.st, rp.reach)
+				}
+			})
 		}
-		e.obligation("post", clauseLabel(cl, i), tTrue, and(gs...), cl.Text, cl.Line, false)
+		sig := e.fn.Signature
+		rn := resultNames(sig)
+		env := e.entryEnv(st)
+		for i := 0; i < sig.Results().Len(); i++ {
+			rt := sig.Results().At(i).Type()
+			var r Term
+			if len(e.retSt) == 1 {
+				r = e.retSt[0].results[i]
+			} else {
+				r = e.declare(fmt.Sprintf("ret.%d", i), e.sortOf(rt))
+				for _, rp := range e.retSt {
+					e.assert(imp(rp.reach, eq(r, rp.results[i])))
+				}
+			}
+			env.vars[rn[i]] = SVal{t: r, typ: rt}
+			env.vars[fmt.Sprintf("result%d", i)] = SVal{t: r, typ: rt}
+			if sig.Results().Len() == 1 {
+				env.vars["result"] = SVal{t: r, typ: rt}
+			}
+		}
+		e.obligation("cover", "return-reachable", exitReach, tTrue, "", "", true)
+		for i, cl := range e.ctr.Get("ensures") {
+			g := e.evalBool(cl.E, env)
+			e.obligationNoAssume("post", clauseLabel(cl, i), exitReach, g, cl.Text, cl.Line)
+		}
 	}
 	return nil
 }
@@ -236,6 +270,15 @@ func (e *fnEnc) obligation(kind, name string, reach, goal Term, src, pos string,
 		// later obligations may assume this one
 		e.assert(imp(reach, goal))
 	}
+	return o
+}
+
+// obligationNoAssume: like obligation, but later obligations do not assume it
+// (used for postconditions and loop preservation, which sit at the end).
+func (e *fnEnc) obligationNoAssume(kind, name string, reach, goal Term, src, pos string) *Obligation {
+	n := len(e.cons)
+	o := e.obligation(kind, name, reach, goal, src, pos, false)
+	e.cons = e.cons[:n]
 	return o
 }
 
@@ -417,6 +460,10 @@ func (e *fnEnc) valName(v ssa.Value) string {
 
 // mergeStates joins predecessor states.
 func (e *fnEnc) mergeStates(b *ssa.BasicBlock, first *ssa.BasicBlock, each func(func(*state, Term))) *state {
+	return e.mergeStatesNamed(fmt.Sprintf("b%d", b.Index), each)
+}
+
+func (e *fnEnc) mergeStatesNamed(label string, each func(func(*state, Term))) *state {
 	var sts []*state
 	var conds []Term
 	each(func(s *state, c Term) { sts = append(sts, s); conds = append(conds, c) })
@@ -473,7 +520,7 @@ func (e *fnEnc) mergeStates(b *ssa.BasicBlock, first *ssa.BasicBlock, each func(
 			out.m[k] = terms[0]
 			continue
 		}
-		nv := e.freshConst(fmt.Sprintf("%s@b%d", k, b.Index), srt)
+		nv := e.freshConst(fmt.Sprintf("%s@%s", k, label), srt)
 		for i, t := range terms {
 			e.assert(imp(conds[i], eq(nv, t)))
 		}
@@ -489,7 +536,7 @@ func (e *fnEnc) mergeStates(b *ssa.BasicBlock, first *ssa.BasicBlock, each func(
 	if sameA {
 		out.alloc = sts[0].alloc
 	} else {
-		na := e.freshConst(fmt.Sprintf("alloc@b%d", b.Index), SInt)
+		na := e.freshConst(fmt.Sprintf("alloc@%s", label), SInt)
 		for i, s := range sts {
 			e.assert(imp(conds[i], eq(na, s.alloc)))
 		}
@@ -518,6 +565,17 @@ func (e *fnEnc) havocAll(st *state) {
 	na := e.freshConst("alloc@h", SInt)
 	e.assert(le(st.alloc, na))
 	st.alloc = na
+	e.assumeGlobalInvs(st)
+}
+
+// assumeGlobalInvs assumes the package's global invariants (facts about
+// package-level variables established by their initialisers) in state st.
+func (e *fnEnc) assumeGlobalInvs(st *state) {
+	for _, inv := range e.eng.globalInvs[e.pkg] {
+		env := &specEnv{enc: e, vars: map[string]SVal{}, st: st, old: st, pkg: e.pkg}
+		e.assert(e.evalBool(inv.E, env))
+		e.assume("global invariant " + inv.Name + " (initialiser fact, assumed never overwritten): " + inv.Text)
+	}
 }
 
 type blockCtx struct {
@@ -573,7 +631,7 @@ func (e *fnEnc) constVal(c *ssa.Const) Term {
 		return boolLit(constant.BoolVal(c.Value))
 	case constant.String:
 		if s == SAStr {
-			return e.declare(fmt.Sprintf("astr.%q", constant.StringVal(c.Value)), SAStr)
+			return e.astrLit(constant.StringVal(c.Value))
 		}
 		return e.strLit(constant.StringVal(c.Value))
 	case constant.Int:
